@@ -1108,7 +1108,37 @@ func runC08(c *Ctx) {
 					}
 				}
 				k, isK := constInt(y)
-				if !isK || !isLoad(x, countF) {
+				// the count itself, or a loop counter that starts as a copy of it and goes down by one in step with
+				// it (for left := c.count; left > 0; left-- { …; c.count-- })
+				lockstep := false
+				if ph, isPhi := x.(*ssa.Phi); isPhi && isK {
+					init, step := false, false
+					for i, e := range ph.Edges {
+						if ph.Block().Dominates(ph.Block().Preds[i]) {
+							if d, ok := e.(*ssa.BinOp); ok && d.Op == token.SUB && d.X == ssa.Value(ph) && isConstInt(d.Y, 1) {
+								step = true
+							}
+						} else if isLoad(e, countF) {
+							init = true
+						}
+					}
+					if init && step {
+						nDec := 0
+						allInstrs(body, func(in2 ssa.Instruction) {
+							if st, ok := in2.(*ssa.Store); ok && ph.Block().Dominates(st.Block()) && blockInLoop(st.Block()) {
+								if _, f := fieldVarOf(st.Addr); f != nil && sameField(f, countF) {
+									if d, ok := st.Val.(*ssa.BinOp); ok && d.Op == token.SUB && isLoad(d.X, countF) && isConstInt(d.Y, 1) {
+										nDec++
+									} else {
+										nDec += 100
+									}
+								}
+							}
+						})
+						lockstep = nDec == 1
+					}
+				}
+				if !isK || !(isLoad(x, countF) || lockstep) {
 					continue
 				}
 				// holds(v): the condition for count = v; the true edge establishes count ≤ 0 when the
